@@ -43,7 +43,35 @@ SHAPES = {
         {'name': 'SR', 'samples': [
             {'name': 'signal', 'data': ['s0', 's1'], 'modifiers': [ns('normfactor', 'mu'), ns('normsys', 'sysA', {'lo': 'slo', 'hi': 'shi'})]},
             {'name': 'bkg', 'data': ['b0', 'b1'], 'modifiers': [ns('normfactor', 'k_bkg'), ns('shapefactor', 'sf_SR')]}]}]},
+    # non-default interpolation codes (`modifier_settings`): piecewise-exponential normalisation (code 1) shared by both samples,
+    # piecewise-linear shape (code 0)
+    'shapeD': {'settings': {'normsys': {'interpcode': 'code1'}, 'histosys': {'interpcode': 'code0'}}, 'channels': [{'name': 'SR', 'samples': [
+        {'name': 'signal', 'data': ['s0', 's1'], 'modifiers': [ns('normfactor', 'mu'), ns('normsys', 'sysN', {'lo': 'slo', 'hi': 'shi'})]},
+        {'name': 'bkg', 'data': ['b0', 'b1'], 'modifiers': [ns('normsys', 'sysN', {'lo': 'blo', 'hi': 'bhi'}),
+                                                          ns('histosys', 'sysH', {'lo_data': ['hl0', 'hl1'], 'hi_data': ['hh0', 'hh1']})]}]}]},
+    # quadratic-interpolation / linear-extrapolation shape (code 2) next to the default normalisation code
+    'shapeE': {'settings': {'histosys': {'interpcode': 'code2'}, 'normsys': {'interpcode': 'code4'}}, 'channels': [{'name': 'SR', 'samples': [
+        {'name': 'signal', 'data': ['s0'], 'modifiers': [ns('normfactor', 'mu')]},
+        {'name': 'bkg', 'data': ['b0'], 'modifiers': [ns('histosys', 'sysH', {'lo_data': ['hl0'], 'hi_data': ['hh0']}), ns('normsys', 'sysN', {'lo': 'blo', 'hi': 'bhi'})]}]}]},
 }
+
+NORM_FN = {'code1': 'Interp.slow1 P', 'code4': 'Interp.slow4 P (1.0 : K)'}
+HISTO_FN = {'code0': 'Interp.slow0', 'code2': 'Interp.slow2', 'code4p': 'Interp.slow4p'}
+
+
+def settings_of(spec):
+    # without `modifier_settings` the configuration's defaults apply (code4 / code4p); a caller-supplied dictionary *replaces* them as a
+    # whole, so a modifier type it does not mention falls back to the default of its combined-modifier class (code1 / code0)
+    if 'settings' not in spec: return 'code4', 'code4p'
+    st = spec['settings']
+    return st.get('normsys', {}).get('interpcode', 'code1'), st.get('histosys', {}).get('interpcode', 'code0')
+
+
+def build(spec, **kw):
+    import pyhf
+    st = spec.get('settings')
+    if st: kw['modifier_settings'] = st
+    return pyhf.Model(symbolic(spec), poi_name='mu', validate=False, **kw)
 
 
 BATCHED = ('shapeB', 'shapeC')      # shapes also evaluated with batch_size=2
@@ -86,6 +114,7 @@ def formula(spec, channels, par_index):
     """the declared HistFactory formula, bin by bin in the order of `channels`; parameters by name.
     `par_index(name, b)`: the Lean variable of component b of the parameter set `name`"""
     out = []
+    ncode, hcode = settings_of(spec)
     by_name = {c['name']: c for c in spec['channels']}
     for cname in channels:
         c = by_name[cname]
@@ -98,9 +127,9 @@ def formula(spec, channels, par_index):
                 for m in s['modifiers']:
                     t, n, d = m['type'], m['name'], m['data']
                     if t in ('normfactor', 'lumi'): fac.append(par_index(n, 0))
-                    elif t == 'normsys': fac.append(f'(Interp.slow4 P (1.0 : K) {d["lo"]} (1.0 : K) {d["hi"]} {par_index(n, 0)})')
+                    elif t == 'normsys': fac.append(f'({NORM_FN[ncode]} {d["lo"]} (1.0 : K) {d["hi"]} {par_index(n, 0)})')
                     elif t in ('shapefactor', 'shapesys', 'staterror'): fac.append(par_index(n, b))
-                    elif t == 'histosys': shifts.append(f'(Interp.slow4p {d["lo_data"][b]} {nom} {d["hi_data"][b]} {par_index(n, 0)})')
+                    elif t == 'histosys': shifts.append(f'({HISTO_FN[hcode]} {d["lo_data"][b]} {nom} {d["hi_data"][b]} {par_index(n, 0)})')
                     else: raise ValueError(t)
                 core = '(' + ' + '.join([nom] + shifts) + ')'
                 terms.append('(' + ' * '.join(fac + [core]) + ')')
@@ -180,7 +209,7 @@ def generate():
             info = {}
 
             def run():
-                m = pyhf.Model(symbolic(spec), poi_name='mu', validate=False)
+                m = build(spec)
                 names = list(m.config.par_names)
                 info['names'] = names; info['channels'] = list(m.config.channels)
                 info['slices'] = {n: (m.config.par_slice(n).start, m.config.par_slice(n).stop) for n in m.config.par_order}
@@ -204,7 +233,7 @@ def generate():
                 out.append(f'def {shape}_ref{b} {sig} : K :=\n  {refs[b]}\n')
             # ---- the log-likelihood: Model.logpdf(pars, data) with symbolic main and auxiliary data
             def run_lp():
-                m = pyhf.Model(symbolic(spec), poi_name='mu', validate=False)
+                m = build(spec)
                 info['naux'] = m.config.nauxdata; info['auxorder'] = list(m.config.auxdata_order)
                 info['ptype'] = {n: (m.config.param_set(n).pdf_type, m.config.param_set(n).n_parameters) for n in m.config.auxdata_order}
                 pars = np.asarray([var(lean_par(n)) for n in m.config.par_names], dtype=object)
@@ -222,7 +251,7 @@ def generate():
             # ---- batched evaluation: Model(spec, batch_size=2) on two symbolic parameter rows; each row of the result must be the unbatched function of its own row
             if shape in BATCHED:
                 def run_batch():
-                    m = pyhf.Model(symbolic(spec), poi_name='mu', validate=False, batch_size=2)
+                    m = build(spec, batch_size=2)
                     rows = np.asarray([[var(f'r{t}_' + lean_par(n)) for n in m.config.par_names] for t in range(2)], dtype=object)
                     res = m.expected_actualdata(rows)
                     assert np.shape(res) == (2, nb), np.shape(res)
